@@ -78,8 +78,17 @@ dec_leaf!(c18_dec_char, Char);
 dec_leaf!(c18_dec_string, String);
 //@ tier=thorough class=best cap=1800 bounds="schema ByteArray x every byte string 0..=5 (Vec<Value> on the heap)"
 dec_leaf!(c18_dec_bytearray, ByteArray);
-//@ tier=quick class=core cap=300 bounds="schema Schema (schema-of-schema kind) x every byte string 0..=5" family=schema
-dec_leaf!(c18_dec_schema, Schema);
+#[kani::proof]
+#[kani::unwind(7)]
+//@ tier=quick class=core cap=300 bounds="schema Schema (schema-of-schema kind) x every byte string 0..=5: an error, never a panic" family=schema
+fn c18_dec_schema() {
+    let a: [u8; 5] = kani::any();
+    let n: usize = kani::any();
+    kani::assume(n <= 5);
+    let r = from_slice_dyn(&OwnedDataModelType::Schema, &a[..n]);
+    kani::cover!(r.is_err() && n == 5, "returns an error");
+    core::mem::forget(r);
+}
 
 #[kani::proof]
 #[kani::unwind(12)]
@@ -355,10 +364,18 @@ enc_leaf!(c18_enc_f32, F32, 12);
 enc_leaf!(c18_enc_f64, F64, 12);
 //@ tier=thorough class=best cap=2400 bounds="schema String x JSON family"
 enc_leaf!(c18_enc_string, String, 12);
-//@ tier=quick class=core cap=900 bounds="schema Char x JSON family (a 2-char string is not a char)" family=char
+//@ tier=thorough class=best cap=2400 bounds="schema Char x JSON family (a 2-char string is not a char)" family=char
 enc_leaf!(c18_enc_char, Char, 12);
-//@ tier=quick class=core cap=600 bounds="schema Schema x JSON family" family=schema
-enc_leaf!(c18_enc_schema, Schema, 12);
+#[kani::proof]
+#[kani::unwind(12)]
+//@ tier=quick class=core cap=600 bounds="schema Schema x JSON family: an error, never a panic" family=schema
+fn c18_enc_schema() {
+    let j = any_json();
+    let r = to_stdvec_dyn(&OwnedDataModelType::Schema, &j);
+    kani::cover!(r.is_err(), "returns an error");
+    core::mem::forget(r);
+    core::mem::forget(j);
+}
 //@ tier=thorough class=core cap=600 bounds="schema Unit x JSON family"
 enc_leaf!(c18_enc_unit, Unit, 12);
 //@ tier=thorough class=best cap=2400 bounds="schema ByteArray x JSON family"
